@@ -73,7 +73,7 @@ ASSUMPTIONS = [
 # alphabets (DESIGN 4.1)
 
 A_FULL = (
-    list("aeEz_Fgbfnrtu")  # NameStart, exponent marker, hex / non-hex letters, escape letters
+    list("aeEz_Fgbfnrtux")  # NameStart, exponent marker, hex / non-hex letters, escape letters, int(..., 16) prefix
     + list("019")  # leading-zero rule: 0 vs non-0
     + list("{}()[]:$@!=|&.")  # SYMBOLS, _read_ellipsis
     + ['"', "\\", "/"]  # _read_string, QUOTED_CHARS
@@ -98,9 +98,14 @@ A_MID = list("aeE_01.-+") + ['"', "\\", "u", "n", "#", " ", "\n", ",", "{", "(",
 A_CORE = list("ae01.-+") + ['"', "\\", "u", "#", " ", "\n", "{", "\u0663", "E"]
 A_Q4 = list("ae_01.-+") + ['"', "\\", "u", "n", "#", " ", "\n", "{", "$", "\u0663", "\u00e9", "\x00"]
 A_TINY = ['"', "\\", "0", "1", "e", ".", "-", "a"]
-ALPHABETS = {"FULL": A_FULL, "MID": A_MID, "Q4": A_Q4, "CORE": A_CORE, "TINY": A_TINY}
+# body of a \\u escape: hex / non-hex letters and digits, what int(s, 16) tolerates (0x prefix, sign, underscore,
+# surrounding white space), the str.isalnum classes, terminators
+A_HEX = list("019aFgxX_+- ") + ["\n", "\t", '"', "\\", "\u0663", "\u00b2", "\u2167", "\u00e9"]
+A_HEXQ = list("01aFgx_+ ") + ["\n", '"', "\\", "\u0663", "\u00e9"]
+ALPHABETS = {"FULL": A_FULL, "MID": A_MID, "Q4": A_Q4, "CORE": A_CORE, "TINY": A_TINY, "HEX": A_HEX, "HEXQ": A_HEXQ}
+assert len(A_HEX) == 20 and len(set(A_HEX)) == 20 and len(A_HEXQ) == 14 and set(A_HEXQ) <= set(A_HEX)
 assert len(A_Q4) == 20 and set(A_Q4) <= set(A_MID)
-assert len(A_FULL) == 56 and len(set(A_FULL)) == 56
+assert len(A_FULL) == 57 and len(set(A_FULL)) == 57
 assert len(A_MID) == 26 and len(set(A_MID)) == 26 and set(A_MID) <= set(A_FULL)
 assert len(A_CORE) == 16 and len(set(A_CORE)) == 16 and set(A_CORE) <= set(A_FULL)
 assert len(A_TINY) == 8 and set(A_TINY) <= set(A_FULL)
@@ -151,15 +156,18 @@ START_OF_ENTRY = {v: k for k, v in ENTRY_OF_START.items()}
 
 TIME_CAP = {"quick": 600, "thorough": 1500}
 
-# sub-layers of L: (alphabet, length, frames, mode)
+# sub-layers of L: (alphabet, length, frames, mode, stage).  Stages order the work simplest / most valuable first:
+# stage 0 runs before the prefix search, stage 1 between its tier A and tier B, so that a run cut by the time cap has
+# completed whole sub-layers (the evidence counts done:<sub-layer> against BOUNDS[...]["planned_cases"]).
 _ALL_FRAMES = tuple(range(len(FRAMES)))
 L_PLAN = {
-    "quick": [("FULL", 0, _ALL_FRAMES, "all"), ("FULL", 1, _ALL_FRAMES, "all"), ("FULL", 2, _ALL_FRAMES, "all"),
-              ("MID", 3, _ALL_FRAMES, "all"), ("Q4", 4, _ALL_FRAMES, "diag"),
-              ("TINY", 5, (0,), "diag"), ("TINY", 6, (0,), "diag")],
-    "thorough": [("FULL", 0, _ALL_FRAMES, "all"), ("FULL", 1, _ALL_FRAMES, "all"), ("FULL", 2, _ALL_FRAMES, "all"),
-                 ("FULL", 3, _ALL_FRAMES, "all"), ("MID", 4, _ALL_FRAMES, "diag"), ("FULL", 4, (0,), "diag"),
-                 ("CORE", 5, _ALL_FRAMES, "diag"), ("TINY", 6, (0,), "diag"), ("TINY", 7, (0,), "diag")],
+    "quick": [("FULL", 0, _ALL_FRAMES, "all", 0), ("FULL", 1, _ALL_FRAMES, "all", 0), ("FULL", 2, _ALL_FRAMES, "all", 0),
+              ("MID", 3, _ALL_FRAMES, "all", 0), ("HEXQ", 4, (3,), "diag", 0), ("Q4", 4, _ALL_FRAMES, "diag", 1),
+              ("TINY", 5, (0,), "diag", 1), ("TINY", 6, (0,), "diag", 1)],
+    "thorough": [("FULL", 0, _ALL_FRAMES, "all", 0), ("FULL", 1, _ALL_FRAMES, "all", 0), ("FULL", 2, _ALL_FRAMES, "all", 0),
+                 ("MID", 3, _ALL_FRAMES, "all", 0), ("FULL", 3, _ALL_FRAMES, "diag", 0), ("HEX", 4, (3,), "diag", 0),
+                 ("MID", 4, _ALL_FRAMES, "diag", 1), ("HEXQ", 5, (3,), "diag", 1), ("CORE", 5, (0, 1), "diag", 1),
+                 ("TINY", 6, (0,), "diag", 1), ("TINY", 7, (0,), "diag", 1)],
 }
 # prefix search: per tier: shard prefix length; per grammar configuration (depth of tier A, depth of tier B) where
 # depth = longest prefix that is extended (inputs of up to depth+1 tokens are tried); inputs of up to ``fullx``
@@ -169,8 +177,8 @@ P_PLAN = {
               "depth": {("Document", 0, 0): (7, 7), ("Document", 0, 1): (7, 7), ("Document", 1, 0): (5, 5), ("Document", 1, 1): (5, 5),
                         ("Value", 0, 0): (7, 7), ("Type", 0, 0): (8, 8)}},
     "thorough": {"shard": 3, "fullx": 3,
-                 "depth": {("Document", 0, 0): (9, 10), ("Document", 0, 1): (9, 10), ("Document", 1, 0): (7, 8), ("Document", 1, 1): (7, 8),
-                           ("Value", 0, 0): (9, 10), ("Type", 0, 0): (10, 10)}},
+                 "depth": {("Document", 0, 0): (9, 10), ("Document", 0, 1): (9, 10), ("Document", 1, 0): (6, 7), ("Document", 1, 1): (6, 7),
+                           ("Value", 0, 0): (8, 9), ("Type", 0, 0): (10, 10)}},
 }
 
 
@@ -180,7 +188,7 @@ def _bounds(tier):
         "L": [
             {"alphabet": a, "chars": len(ALPHABETS[a]), "length": n, "frames": frames(fr),
              "configs": "16 (8 flag combinations x str/bytes)" if mode == "all" else "2 diagonal (all flags off + str, all flags on + bytes)"}
-            for a, n, fr, mode in L_PLAN[tier]
+            for a, n, fr, mode, _stage in L_PLAN[tier]
         ],
         "P": {
             "tokens": NTOK,
@@ -189,13 +197,12 @@ def _bounds(tier):
             "full_variant_cross_product_up_to_tokens": P_PLAN[tier]["fullx"],
         },
         "probe_depth": 5000,
+        "planned_cases": _planned(tier),
     }
 
-
-BOUNDS = {"quick": _bounds("quick"), "thorough": _bounds("thorough")}
 PROBE_DEPTH = 5000
 PROBE_SHAPES = ["selection", "list-value", "object-value", "list-type", "arg-list"]
-MAX_PER_CLASS_PER_CASE = 400
+MAX_PER_CLASS_PER_CASE = 25
 
 # ------------------------------------------------------------------------------------------
 # implementation access
@@ -411,7 +418,7 @@ def _tokdesc(kind, value, expected=()):
     (a string spelling an expected keyword, a Name the expected Name-class excludes)."""
     if kind == "Name":
         if value in ("true", "false", "null") and "EnumName" in expected:
-            return "Name:" + value
+            return "Name:true|false|null"
         if value == "on" and "NameNotOn" in expected:
             return "Name:on"
         if ("ExecLoc" in expected or "TsLoc" in expected) and "Name" not in expected:
@@ -475,25 +482,59 @@ def _lex_divergence(text, impl_toks, impl_status, impl_exc, ref_toks, ref_err):
     return "lex/impl=%s/ref=%s/char=?" % (d[0], d[1])
 
 
+def _lex_div_of(text):
+    it, status, exc = _run_lexer(text, len(text))
+    rt, rerr = RL.lex(text)
+    return _lex_div(text, it, status, exc, rt, rerr), rerr
+
+
 def _lex_class(text):
-    """class key of a lexical disagreement, derived on the *shortest prefix* of the text on which the
-    two lexers already disagree.  The character named in the key is the first non-ASCII character
-    of the disagreeing token if there is one (the implementation's predicates are Unicode-aware, the
-    grammar's are ASCII), otherwise the last character of that prefix."""
+    """class key of a lexical disagreement, derived mechanically on a *minimised* text: the shortest
+    prefix on which the two lexers already disagree, from which every character whose deletion
+    keeps the same disagreement (same implementation / reference outcome) has been dropped, right
+    to left.  The character named in the key is the first non-ASCII character of the disagreeing
+    token if there is one (the implementation's predicates are Unicode-aware, the grammar's are
+    ASCII), otherwise the character the reference lexer refuses, otherwise the last character."""
     for n in range(1, len(text) + 1):
-        pre = text[:n]
-        it, status, exc = _run_lexer(pre, n)
-        rt, rerr = RL.lex(pre)
-        d = _lex_div(pre, it, status, exc, rt, rerr)
+        d, rerr = _lex_div_of(text[:n])
         if d is not None:
-            da, db, lo = d
-            p = n - 1
-            for q in range(max(lo, 0), n):
-                if ord(pre[q]) > 127:
-                    p = q
-                    break
-            return "lex/impl=%s/ref=%s/char=%s" % (da, db, _bucket(pre, p))
-    return None
+            break
+    else:
+        return None
+    m = text[:n]
+    kinds = (d[0], d[1])
+    i = len(m) - 1
+    while i >= 0 and len(m) > 1:
+        cand = m[:i] + m[i + 1 :]
+        d2, rerr2 = _lex_div_of(cand)
+        if d2 is not None and (d2[0], d2[1]) == kinds:
+            m, d, rerr = cand, d2, rerr2
+        i -= 1
+    da, db, lo = d
+    p = len(m) - 1
+    if db == "ERR" and rerr is not None and rerr[0] < len(m):
+        p = rerr[0]
+    for q in range(max(lo, 0), len(m)):
+        if ord(m[q]) > 127:
+            p = q
+            break
+    return "lex/impl=%s/ref=%s/char=%s" % (da, db, _bucket(m, p))
+
+
+_NAME_TERMINALS = ("Name", "NameNotOn", "EnumName", "ExecLoc", "TsLoc")
+
+
+def _related(kind, value, expected):
+    """the expected terminals that have to do with the refused token (all of them for END / punctuators)"""
+    if kind == "Name":
+        r = [x for x in expected if x in _NAME_TERMINALS or x.startswith("kw:")]
+    elif kind in ("String", "BlockString"):
+        r = [x for x in expected if x in ("String", "BlockString") or x == "kw:" + value]
+    else:
+        r = []
+    if kind == "Name" and len(r) > 6:
+        r = [x for x in r if not x.startswith("kw:")] + ["kw:*%d" % sum(1 for x in r if x.startswith("kw:"))]
+    return r or list(expected)
 
 
 def _ref_death(start, ts, fv, kv_tokens):
@@ -504,7 +545,7 @@ def _ref_death(start, ts, fv, kv_tokens):
         c2 = R.push(chart, RG.terminal_classes(kind, value))
         if c2 is None:
             exp = R.expected(chart)
-            return _tokdesc(kind, value, exp), exp
+            return _tokdesc(kind, value, exp), _related(kind, value, exp)
         chart = c2
     if R.accepts(chart):
         return None, None
@@ -527,16 +568,16 @@ def _ast_children(node):
 
 
 def _syn_accept_class(entry, text, ts, fv):
-    """implementation accepted, reference rejected.  Root-cause key: the *innermost* node of the
-    implementation's own tree whose tokens the like-named nonterminal of the reference grammar does
-    not derive, and where / expecting what the reference stops inside that node."""
+    """implementation accepted, reference rejected.  Root-cause key ("misparse"): the *innermost*
+    node of the implementation's own tree whose tokens the like-named nonterminal of the reference
+    grammar does not derive, and where / expecting what the reference stops inside that node."""
     start = START_OF_ENTRY[entry]
     toks, err = RL.lex(text)
     if err is not None:
-        return "syn/impl-accepts/reference-lexer-rejects"
+        return "syn/misparse/reference-lexer-rejects"
     kv = [(t[0], t[3]) for t in toks]
     generic_dead, generic_exp = _ref_death(start, ts, fv, kv)
-    generic = "syn/impl-accepts/node=?/ref-stops-at=%s/expected=%s" % (generic_dead, ",".join(generic_exp or ()))
+    generic = "syn/misparse/node=?/ref-stops-at=%s/expected=%s" % (generic_dead, ",".join(generic_exp or ()))
     try:
         node = _impl()[entry](text, no_location=False, allow_type_system=bool(ts), experimental_fragment_variables=bool(fv))
     except Exception:  # noqa
@@ -565,12 +606,27 @@ def _syn_accept_class(entry, text, ts, fv):
         node = failing_child
     if best is None:
         return generic
-    return "syn/impl-accepts/node=%s/ref-stops-at=%s/expected=%s" % (best[0], best[1], ",".join(best[2]))
+    return "syn/misparse/node=%s/ref-stops-at=%s/expected=%s" % (best[0], best[1], ",".join(best[2]))
 
 
-def _syn_reject_class(e, text):
-    """implementation rejected, reference accepted: at which token (and after which), in which parse function?"""
+def _syn_reject_class(e, text, entry=None, ts=0, fv=0):
+    """implementation rejected, reference accepted.  If a proper token-prefix of the text is already
+    wrongly *accepted* by the implementation, the rejection is a consequence of that misparse and
+    gets its key (one root cause, one class); otherwise: at which token (and after which), in which
+    parse function the implementation gave up."""
     toks, _ = RL.lex(text)
+    if entry is not None:
+        start = START_OF_ENTRY[entry]
+        R = RG.recogniser(start, ts, fv)
+        chart = R.initial
+        for k in range(len(toks) - 1):
+            chart = R.push(chart, RG.terminal_classes(toks[k][0], toks[k][3])) if chart is not None else None
+            if chart is not None and R.accepts(chart):
+                continue
+            pre = text[: toks[k][2]]
+            status, _e = _run(entry, pre, 0, ts, fv)
+            if status == "ok":
+                return _syn_accept_class(entry, pre, ts, fv), "shortest wrongly accepted prefix: %r" % pre
     pos = getattr(e, "position", None)
     at = "EOF"
     after = "SOF"
@@ -585,7 +641,7 @@ def _syn_reject_class(e, text):
             prev = (toks[-1][0], toks[-1][3]) if toks else None
         if prev is not None:
             after = _tokdesc(*prev)
-    return "syn/impl-rejects/exc=%s/at=%s/after=%s/in=%s" % (type(e).__name__, at, after, _innermost(e))
+    return "syn/impl-rejects/exc=%s/at=%s/after=%s/in=%s" % (type(e).__name__, at, after, _innermost(e)), ""
 
 
 # ------------------------------------------------------------------------------------------
@@ -597,19 +653,18 @@ DIAG_CONFIGS = [(0, 0, 0, 0), (1, 1, 1, 1)]
 _FACTORS = ("no_location", "allow_type_system", "experimental_fragment_variables", "bytes", "layout")
 
 
-def _only_suffix(failing, passing):
-    """class-key suffix for a violation that does not show in the base configuration."""
-    if not passing:
-        return ""
-    base = passing[0]
+def _only_suffix(failing, configs):
+    """class-key suffix for a violation that shows only with bytes input / only with no_location=True
+    while the twin configuration (same text as str / with locations) is fine."""
+    fset = set(failing)
+    cset = set(configs)
     parts = []
-    for i, f in enumerate(_FACTORS):
-        if i >= len(base):
-            break
-        vals = {c[i] for c in failing}
-        if len(vals) == 1 and base[i] not in vals and all(c[i] not in vals for c in passing):
-            parts.append("%s=%s" % (f, next(iter(vals))))
-    return "/only-when:" + (",".join(parts) if parts else "some-configs")
+    for idx, name in ((3, "bytes-only"), (0, "no_location-only")):
+        if all(c[idx] == 1 for c in failing):
+            twins = [c[:idx] + (0,) + c[idx + 1 :] for c in failing]
+            if all(t in cset and t not in fset for t in twins):
+                parts.append(name)
+    return ("/" + ",".join(parts)) if parts else ""
 
 
 _REF_CACHE = {}
@@ -675,7 +730,7 @@ def _eval_text(text, entries, configs, st):
         if bstatus == "syn" and lstatus == "syn":
             same = same and type(bexc) is type(lexc)
             for cls, d in _error_checks(bexc, nchars, seen):
-                found.setdefault(cls + ("" if cls in found else "/only-when:bytes=1"), "Lexer(%r): %s" % (data, d))
+                found.setdefault(cls + ("" if cls in found else "/bytes-only"), "Lexer(%r): %s" % (data, d))
         if not same:
             found.setdefault(
                 "lexer-bytes-differs-from-str/str=%s/bytes=%s"
@@ -719,7 +774,8 @@ def _eval_text(text, entries, configs, st):
                     if lexdiv is not None:
                         viol.append((lexclass(), "%s rejects (%s), reference accepts" % (entry, type(e).__name__)))
                     else:
-                        viol.append((_syn_reject_class(e, text), "%s rejects (%s at %r), reference accepts" % (entry, type(e).__name__, e.position)))
+                        cls, why = _syn_reject_class(e, text, entry, ts, fv)
+                        viol.append((cls, "%s rejects (%s at %r), reference accepts; %s" % (entry, type(e).__name__, e.position, why)))
             elif status == "exc":
                 viol.append(("wrong-exception:%s/in=%s" % (type(e).__name__, _innermost(e)), "%s raised %r" % (entry, e)))
             else:
@@ -731,10 +787,7 @@ def _eval_text(text, entries, configs, st):
                 passing.append(cfg)
         for cls, lst in per_class.items():
             failing = [c for c, _ in lst]
-            suffix = ""
-            base_cfg = configs[0]
-            if base_cfg not in failing:
-                suffix = _only_suffix(failing, [base_cfg] + [c for c in configs if c not in failing and c != base_cfg and not (c[3] and data is None)])
+            suffix = _only_suffix(failing, configs)
             cfg, d = lst[0]
             found.setdefault(
                 cls + suffix,
@@ -748,8 +801,8 @@ def _eval_text(text, entries, configs, st):
             st.n("nontrivial_rejects")
         if lexdiv is not None and not parse_verdict_differs:
             st.n("info:lexer-stream-differs-without-verdict-difference")
-            if st.counters.get("info:lexer-stream-differs-without-verdict-difference", 0) <= 3:
-                st.note("lexer stream differs without any parse verdict difference, e.g. %r (%s)" % (text, lexdiv))
+            if st.counters.get("info:lexer-stream-differs-without-verdict-difference", 0) <= 1:
+                st.note("lexer stream differs without any parse verdict difference, e.g. %r (%s)" % (text, lexclass()))
     return found
 
 
@@ -772,7 +825,13 @@ def _check_L(case, st):
             st.n("L/cut_by_time_cap")
             break
         for fi in case["frames"]:
+            if count == 37 and len(st.samples) < st.MAX_SAMPLES - 2:
+                st.sample({"layer": "L", "alphabet": case["alphabet"], "frame": FRAMES[fi][0], "text": _frame_text(fi, s),
+                           "entry_points": list(FRAMES[fi][3]), "configurations": len(configs)})
             found = _eval_text(_frame_text(fi, s), FRAMES[fi][3], configs, st)
+            if found and configs is not ALL_CONFIGS:
+                # class keys are always derived from the full set of configurations (as replay does)
+                found = _eval_text(_frame_text(fi, s), FRAMES[fi][3], ALL_CONFIGS, None)
             if found:
                 for cls, d in found.items():
                     k = per_class.get(cls, 0)
@@ -867,7 +926,8 @@ def _test_sequence(start, ts, fv, toks, ref_ok, variants, st):
         elif status == "syn":
             viol.extend(_error_checks(e, len(text), seen.setdefault(lay, {})))
             if ref_ok:
-                viol.append((_syn_reject_class(e, text), "%s rejects (%s at %r), reference accepts" % (entry, type(e).__name__, e.position)))
+                cls, why = _syn_reject_class(e, text, entry, vts, vfv)
+                viol.append((cls, "%s rejects (%s at %r), reference accepts; %s" % (entry, type(e).__name__, e.position, why)))
         elif status == "exc":
             viol.append(("wrong-exception:%s/in=%s" % (type(e).__name__, _innermost(e)), "%s raised %r" % (entry, e)))
         else:
@@ -880,9 +940,7 @@ def _test_sequence(start, ts, fv, toks, ref_ok, variants, st):
     found = {}
     for cls, lst in per_class.items():
         failing = [c for c, _, _ in lst]
-        suffix = ""
-        if variants[0] not in failing:
-            suffix = _only_suffix(failing, [variants[0]] + [c for c in passing if c != variants[0]])
+        suffix = _only_suffix(failing, variants)
         v, d, text = lst[0]
         found[cls + suffix] = (
             "%s(%r, no_location=%d, allow_type_system=%d, experimental_fragment_variables=%d, bytes=%d) [layout %s]: %s [%d of %d variants]"
@@ -925,10 +983,16 @@ class _PSearch:
             ref_ok = c2 is not None and R.accepts(c2)
             seq = prefix + (t,)
             found, base = _test_sequence(self.start, self.ts, self.fv, seq, ref_ok, variants, st)
+            if found and report and n > self.fullx:
+                # class keys are always derived from the full cross product of variants (as replay does)
+                found, _b = _test_sequence(self.start, self.ts, self.fv, seq, ref_ok, _p_variants(self.start, self.ts, self.fv, True), None)
             status, e, text = base
             if report:
                 if ref_ok and status == "ok":
                     st.nt((self.start, self.ts, self.fv, text))
+                    if n >= 4 and len(st.samples) < st.MAX_SAMPLES and st.counters.get("P/inputs", 0) % 53 == 0:
+                        st.sample({"layer": "P", "entry": ENTRY_OF_START[self.start], "allow_type_system": self.ts,
+                                   "experimental_fragment_variables": self.fv, "text": text, "verdict": "accepted by both"})
                 elif n > 1 and (c2 is not None or (status == "syn" and isinstance(e.position, int) and e.position > len(TOKENS[seq[0]][0]))):
                     st.n("nontrivial_rejects")
                 st.n("P/inputs")
@@ -1077,9 +1141,19 @@ def selftest():
                 assert err is None and [(t[0], t[3]) for t in toks] == [TOKENS[i][1:], TOKENS[j][1:]], (text, toks, err)
 
 
-def cases(tier):
-    # ---- L
-    for alpha, n, frames, mode in L_PLAN[tier]:
+def _tag(case):
+    if case["layer"] == "L":
+        return "L/%s/len=%d" % (case["alphabet"], case["len"])
+    if case["layer"] == "P":
+        name = "%s%s%s" % (case["start"], "+ts" if case["ts"] else "", "+fv" if case["fv"] else "")
+        return "P/%s/%s" % (name, "root" if case["kind"] == "root" else "tier" + case["tier"])
+    return "probe"
+
+
+def _l_cases(tier, stage):
+    for alpha, n, frames, mode, stg in L_PLAN[tier]:
+        if stg != stage:
+            continue
         size = len(ALPHABETS[alpha])
         if n <= 2:
             yield {"layer": "L", "alphabet": alpha, "len": n, "pre": [], "frames": list(frames), "mode": mode}
@@ -1087,33 +1161,59 @@ def cases(tier):
             for i in range(size):
                 for j in range(size):
                     yield {"layer": "L", "alphabet": alpha, "len": n, "pre": [i, j], "frames": list(frames), "mode": mode}
-    # ---- P
+
+
+def _p_cases(tier, tierno):
     plan = P_PLAN[tier]
     shard = plan["shard"]
+    name = "AB"[tierno]
     for start, ts, fv in P_CONFIGS:
-        yield {"layer": "P", "kind": "root", "start": start, "ts": ts, "fv": fv, "shard": shard, "fullx": plan["fullx"]}
-    for tierno, name in ((0, "A"), (1, "B")):
-        for start, ts, fv in P_CONFIGS:
-            d = plan["depth"][(start, ts, fv)]
-            if tierno == 1 and d[1] == d[0]:
-                continue
-            if d[tierno] < shard:
-                continue
-            for prefix in itertools.product(range(NTOK), repeat=shard):
-                yield {
-                    "layer": "P", "kind": "dfs", "tier": name, "start": start, "ts": ts, "fv": fv, "prefix": list(prefix),
-                    "depth": d[tierno], "fullx": plan["fullx"],
-                    # tier B re-walks tier A's nodes silently and reports only the deeper inputs
-                    "report_min_len": (shard + 1) if tierno == 0 else d[0] + 2,
-                }
-    # ---- probe
+        d = plan["depth"][(start, ts, fv)]
+        if tierno == 1 and d[1] == d[0]:
+            continue
+        if d[tierno] < shard:
+            continue
+        for prefix in itertools.product(range(NTOK), repeat=shard):
+            yield {
+                "layer": "P", "kind": "dfs", "tier": name, "start": start, "ts": ts, "fv": fv, "prefix": list(prefix),
+                "depth": d[tierno], "fullx": plan["fullx"],
+                # tier B re-walks tier A's nodes silently and reports only the deeper inputs
+                "report_min_len": (shard + 1) if tierno == 0 else d[0] + 2,
+            }
+
+
+def cases(tier):
+    plan = P_PLAN[tier]
+    # simplest first: short strings, the roots of the prefix searches, the named probe ...
+    for c in _l_cases(tier, 0):
+        yield c
+    for start, ts, fv in P_CONFIGS:
+        yield {"layer": "P", "kind": "root", "start": start, "ts": ts, "fv": fv, "shard": plan["shard"], "fullx": plan["fullx"]}
     for shape in PROBE_SHAPES:
         yield {"layer": "probe", "shape": shape, "depth": PROBE_DEPTH}
+    # ... the prefix search to its first depth, the longer strings, the prefix search one token deeper
+    for c in _p_cases(tier, 0):
+        yield c
+    for c in _l_cases(tier, 1):
+        yield c
+    for c in _p_cases(tier, 1):
+        yield c
+
+
+def _planned(tier):
+    out = {}
+    for c in cases(tier):
+        t = _tag(c)
+        out[t] = out.get(t, 0) + 1
+    return out
+
+
+BOUNDS = {"quick": _bounds("quick"), "thorough": _bounds("thorough")}
 
 
 def check_case(case, st):
     layer = case["layer"]
-    st.n("cases:" + layer)
+    st.n("done:" + _tag(case))
     if layer == "L":
         out = list(_check_L(case, st))
     elif layer == "P":
@@ -1121,12 +1221,6 @@ def check_case(case, st):
     else:
         w = {"layer": "probe", "shape": case["shape"], "depth": case["depth"]}
         out = [(cls, w, d) for cls, d in _check_probe(case, st)]
-    if out and len(st.samples) < st.MAX_SAMPLES:
-        pass
-    if layer == "L" and case["len"] >= 3 and case["pre"] == [0, 0] and len(st.samples) < st.MAX_SAMPLES:
-        st.sample({"layer": "L", "alphabet": case["alphabet"], "len": case["len"], "example": _frame_text(1, "a" * case["len"])})
-    if layer == "P" and case["kind"] == "root":
-        st.sample({"layer": "P", "start": case["start"], "ts": case["ts"], "fv": case["fv"], "example_tokens": [TOKENS[i][0] for i in (1, 0, 2)]})
     return out
 
 
@@ -1141,12 +1235,8 @@ def replay(witness):
         toks = tuple(TOKEN_BY_LEXEME[x] for x in witness["toks"])
         R = RG.recogniser(start, ts, fv)
         ok, _ = R.run([TOK_CLASSES[t] for t in toks])
-        out = {}
-        for full in (False, True):
-            found, _ = _test_sequence(start, ts, fv, toks, ok, _p_variants(start, ts, fv, full), None)
-            for k, v in found.items():
-                out.setdefault(k, v)
-        return sorted(out.items())
+        found, _ = _test_sequence(start, ts, fv, toks, ok, _p_variants(start, ts, fv, True), None)
+        return sorted(found.items())
     if layer == "probe":
         return _check_probe(witness, None)
     raise ValueError(layer)
